@@ -132,22 +132,18 @@ fn to_text_changes(changes: Vec<TextDocumentContentChangeEvent>, text: String) -
     let mut temp_text = text;
     changes
         .into_iter()
-        .filter_map(|change| {
-            if let TextDocumentContentChangeEvent {
-                range: Some(range),
+        .map(|change| {
+            let TextDocumentContentChangeEvent { range, text, .. } = change;
+            let text_change = TextChange {
+                range: match range {
+                    Some(range) => as_index_range(&range, &temp_text),
+                    // a change without a range replaces the whole document
+                    None => 0..temp_text.len(),
+                },
                 text,
-                ..
-            } = change
-            {
-                let text_change = TextChange {
-                    range: as_index_range(&range, &temp_text),
-                    text,
-                };
-                temp_text.replace_range(text_change.range.clone(), &text_change.text);
-                Some(text_change)
-            } else {
-                None
-            }
+            };
+            temp_text.replace_range(text_change.range.clone(), &text_change.text);
+            text_change
         })
         .collect()
 }
